@@ -796,6 +796,32 @@ func genMarshalRT(ctx *Ctx, emit func(any, string)) {
 		}
 		emit(&RTInput{Tree: t, Single: g.r.Pct(40)}, "random")
 	}
+	// width is no limit: more than a thousand nested Stacks / Conditions in one
+	// Stack, and a wide Stack late among many siblings
+	{
+		cnd := func(i int) *JNode {
+			return &JNode{T: "cond", Kw: "k", Op: &OpDesc{Builtin: 1 + i%6}, Ex: &JNode{T: "int", I: int64(i % 90)}}
+		}
+		wide := &JNode{T: "stack", Kind: "AND"}
+		for i := 0; i < 1100; i++ {
+			if i%5 == 4 {
+				wide.Els = append(wide.Els, &JNode{T: "stack", Kind: "OR", Els: []*JNode{str("m")}})
+			} else {
+				wide.Els = append(wide.Els, cnd(i))
+			}
+		}
+		emit(&RTInput{Tree: wide}, "exhaustive")
+		two := &JNode{T: "stack", Kind: "OR"}
+		for i := 0; i < 700; i++ {
+			two.Els = append(two.Els, &JNode{T: "stack", Kind: "NOT", Els: []*JNode{str("n")}})
+		}
+		last := &JNode{T: "stack", Kind: "AND"}
+		for i := 0; i < 400; i++ {
+			last.Els = append(last.Els, cnd(i))
+		}
+		two.Els = append(two.Els, last)
+		emit(&RTInput{Tree: two, Single: true}, "exhaustive")
+	}
 	// the same instance twice: as siblings, below a later sibling, typed anew
 	sub := func() *JNode { return &JNode{T: "stack", Kind: "OR", Sh: 1, Els: []*JNode{str("a"), str("b")}} }
 	for _, k := range kinds {
@@ -1112,7 +1138,7 @@ func (g *jkGen) operator() *JNode {
 func (g *jkGen) scalar() *JNode {
 	switch x := g.r.Intn(100); {
 	case x < 25:
-		return jstr([]string{"junk", "", "x y", "é", "k", "lıst", "ſ", "cond"}[g.r.Intn(8)])
+		return jstr([]string{"junk", "", "x y", "é", "k", "lıst", "ſ", "cond", "ou=People\\", "a\\ b", "\\", "x\\\\", "tab\\\t", "q\\  r"}[g.r.Intn(14)])
 	case x < 40:
 		return jstr(g.label())
 	case x < 45:
@@ -1249,6 +1275,8 @@ func genMarshalJunk(ctx *Ctx, emit func(any, string)) {
 		{jlist(jlist(jlist(jstr("OR"), jint(1))))},
 		{jstr("CONDITION"), jstr("k"), eq, jstr("v")},
 		{jstr(" and "), jstr("a"), jstr("b")},
+		{jstr("and"), jstr("cn=Jesse"), jstr("ou=People\\")},
+		{jstr("or"), jstr("\\"), jlist(jstr("list"), jstr("a\\ "), jstr("b\\"))},
 		{jstr("list\t"), jstr("a"), jstr("b")},
 		{jstr("Not "), jstr("a")},
 		{jstr(" CONDITION"), jstr("k"), eq, jstr("v")},
